@@ -24,6 +24,7 @@ UNITS = None
 def check(ctx):
     ctx.rule('C20.U', 'no read and consume of one object in unsequenced operands')
     ctx.rule('C20.V', 'no object is used after it was moved from')
+    ctx.rule('C20.K', 'ordered and hashed maps identify the same AnyId keys')
     ctx.rule('C20.I', 'constructors leave no scalar member indeterminate')
     ctx.rule('C20.M', 'witness units type-check with g++ and clang++')
     ctx.rule('C20.P', 'SingleThreading policy matches the std::atomic / mutex interface conventions')
@@ -48,8 +49,14 @@ def check(ctx):
                        where=f.nloc(later[0]['site']['consumer']) if later else None)
         check_init(ctx, tu)
         check_policy(ctx, tu)
+        # map-kind independence for AnyId keys: an ordered map identifies keys by <-incomparability, a hashed map by ==; the two
+        # partitions coincide exactly when "incomparable under < <=> ==" (the C18 law, evaluated over all orderings of three ids)
+        from .c18 import anyid_pairs, check_pair
+        for eqf, ltf, storage in anyid_pairs(tu):
+            check_pair(ctx, tu, eqf, ltf, storage, rule='C20.K', only=('incomparable under < exactly when ==',))
     ctx.require(nfun >= 20, 'C20.U: fewer than 20 functions with consuming sites were analysed (%d)' % nfun)
     ctx.require_min('C20.I', 30)
+    ctx.require_min('C20.K', 1)
     ctx.require_min('C20.P', 6)
     check_matrix(ctx)
 
